@@ -560,6 +560,55 @@ theorem mutation_safe_actions (st : St) (a : Action) (hinv : AInv st []) (ha : A
   · intro w hw; rw [hw] at h; exact h
   · intro st' hs; rw [hs] at h; exact h.1
 
+/-- The application states reached through: a fresh root, new windows (any flags, any live parent), bindings whose
+    handlers use covered actions, covered actions of the application itself, and key and mouse events on the
+    repaired code.  (Of the engine's operations only flush and restacking / take_focus are missing.) -/
+inductive ReachableCovered : St → Prop where
+  | fresh (lines cols : Int) : ReachableCovered (newSt lines cols)
+  | win {st st' : St} {id : WinTree.Id} (p : WinTree.Id) (r : Rect) (a b c d : Bool) :
+      ReachableCovered st → isAlive st.tree p = true → newWin st p r a b c d = Res.ok (st', id) → ReachableCovered st'
+  | bind {st : St} (w : WinTree.Id) (k : Kind) (es : List Entry) :
+      ReachableCovered st → (∀ e ∈ es, ∀ a ∈ e.actions, ActOK a) → ReachableCovered (addBinding st w k es).1
+  | act {st st' : St} (a : Action) : ReachableCovered st → ActOK a → doAction st a = Res.ok st' → ReachableCovered st'
+  | key {st st' : St} (ev : Ev) : ReachableCovered st → emitKey Cfg.repaired st ev = Out.ok st' → ReachableCovered st'
+  | mouse {st st' : St} (ev : Ev) : ReachableCovered st → emitMouse Cfg.repaired st ev = Out.ok st' → ReachableCovered st'
+
+/-- Every such state satisfies the hypotheses of `mutation_safe`. -/
+theorem reachable_invariant {st : St} (h : ReachableCovered st) : AInv st [] ∧ TableOK st.binds := by
+  induction h with
+  | fresh l c => exact newSt_good l c
+  | @win st st' id p r a b c d _ hal hn ih =>
+    have hp : Alive st.tree p := by
+      unfold isAlive at hal
+      cases hw : st.tree.wins[p]? with
+      | none => simp [hw] at hal
+      | some w => simp only [hw] at hal; exact ⟨w, hw, by simpa using hal⟩
+    have := newWin_good ih hp r a b c d
+    rw [hn] at this
+    exact this
+  | bind w k es _ hes ih => exact addBinding_good ih w k es hes
+  | act a _ ha hd ih =>
+    have := doAction_safe ih.1 ha
+    rw [hd] at this
+    exact ⟨this.1, by rw [this.2]; exact ih.2⟩
+  | key ev _ he ih =>
+    have := (emit_safe ih ev).1
+    rw [he] at this
+    exact this
+  | mouse ev _ he ih =>
+    have := (emit_safe ih ev).2
+    rw [he] at this
+    exact this
+
+/-- **mutation_safe over histories.**  Along every history of window creations, bindings with covered handlers,
+    covered application actions and key / mouse events, no event ever makes the repaired routing touch freed memory,
+    dereference NULL or abort. -/
+theorem mutation_safe_histories {st : St} (h : ReachableCovered st) (ev : Ev) :
+    (∀ w, emitKey Cfg.repaired st ev = Out.ub w → FuelMsg w) ∧
+    (∀ w, emitMouse Cfg.repaired st ev = Out.ub w → FuelMsg w) := by
+  obtain ⟨hinv, htab⟩ := reachable_invariant h
+  exact ⟨(mutation_safe st ev hinv htab).1, (mutation_safe st ev hinv htab).2.1⟩
+
 /-! ### the hypotheses of the theorems above are met by real histories (non-vacuity) -/
 
 namespace Scenario
